@@ -9,8 +9,9 @@ ABRM → SBRM → SIRM chain of a conforming device; `replay new m` = image afte
 of the log segment `new`; `Access.enables s` / `touches s` = the access set / modified the
 stream-enable bit; `roundUp a x` = least multiple of `a` that is `≥ x`.
 
-The arithmetic theorems hold for **every** exponent `k ≤ 31`, both build profiles, all `u32`
-leader/trailer sizes with `size + 2^k - 1 < 2^32` and all payloads `< 2^32 · roundUp 2^k 65536`.
+The coverage theorems hold for **every** exponent `k ≤ 31`, both build profiles, all `u32`
+leader/trailer sizes with `size + 2^k - 1 < 2^32` and all payloads `< 2^32 · roundUp 2^k 65536`;
+outside that scope the (repaired) code returns an error (`sizes_total`, `never_panics`).
 The failure theorems hold for every device image, handle state and fault schedule.
 -/
 import CamVerif.Proofs.C15
@@ -42,6 +43,19 @@ theorem sizes_aligned (p : Profile) (e L P T : Nat) (h : ArithScope e L P T) :
     (expectedSizes_aligned e L P T).1, (expectedSizes_aligned e L P T).2.1,
     (expectedSizes_aligned e L P T).2.2.1, (expectedSizes_aligned e L P T).2.2.2.1,
     (expectedSizes_aligned e L P T).2.2.2.2, expectedSizes_fit32 e L P T h⟩
+
+/-- **sizes_total**: for every alignment `2^k` (`k ≤ 31`), all `u32` leader/trailer requirements
+and every payload requirement, in both profiles, the arithmetic never panics: either the inputs
+are inside the scope (and the result is `expectedSizes`, which covers and is aligned), or the
+result is the error `InvalidDevice` (aligned leader/trailer does not fit `u32`, or the payload
+needs more than `u32::MAX` transfers).  There is no third outcome: nothing is silently
+truncated or wrapped. -/
+theorem sizes_total (p : Profile) (e L P T : Nat) (he : e ≤ 31) (hL : L < 2 ^ 32) (hT : T < 2 ^ 32) :
+    computeSizes p (2 ^ e) L P T = .err .invalidDevice ∨
+    (ArithScope e L P T ∧ computeSizes p (2 ^ e) L P T = .ok (expectedSizes e L P T)) := by
+  rcases computeSizes_scope_or_err p e L P T he hL hT with h | h
+  · exact Or.inr ⟨h, sizes_exact p e L P T h⟩
+  · exact Or.inl h
 
 /-- The scope hypothesis "aligned value fits u32" in closed form: `x + 2^k - 1 < 2^32` iff the
 least multiple of `2^k` above `x` is below `2^32`. -/
@@ -375,6 +389,12 @@ theorem failure_atomic_enable (p : Profile) (s : Nat) (st : St) :
     rw [h2, enabledIn_iff_byte] at hen
     obtain ⟨g1, g2⟩ := replay_enable_bit s _ _ hq hen
     exact ⟨(enabledIn_iff_byte _ _).mpr g1, g2⟩
+
+/-- **never_panics**: `enable_streaming` does not panic — for every device image (any register
+values: alignment exponent 0..255, any required sizes), every handle state, every fault schedule
+and both build profiles the call returns `Ok` or `Err`. -/
+theorem never_panics (p : Profile) (st : St) : (enableStreaming p st).1 ≠ .panic :=
+  (NP.enableStreaming p st).1
 
 /-- **disable_streaming** on a conforming device: one write `SI_CONTROL := 0`, the enable bit is
 clear afterwards. -/
